@@ -261,6 +261,21 @@ def classify_failure(chk):
 def main(a):
     t_start = time.time()
     pid = a.prop
+    if a.replay:
+        # re-run exactly the harness / instance recorded in the replay file against the CURRENT tree
+        rep = json.load(open(a.replay))
+        if rep.get("engine") == "verus":
+            import verus_trace
+            scratch0 = tempfile.mkdtemp(prefix="verif-replay-", dir=os.environ.get("VERIF_SCRATCH", "/var/tmp"))
+            atexit.register(lambda: shutil.rmtree(scratch0, ignore_errors=True))
+            kanirun.snapshot(scratch0, KANI_SRC)
+            erc, _, lines = verus_trace.run(pid, scratch0, a.tier)
+            for l in lines:
+                print(l)
+            print("REPLAY property=%s %s" % (pid, "reproduced" if erc == 1 else "not reproduced"))
+            return erc
+        a.only = rep["harness"].split("::")[-1]
+        print("REPLAY property=%s harness=%s obligations=%s" % (pid, a.only, "; ".join(o["obligation"] for o in rep.get("failed_obligations", []))[:300]))
     meta = prop_meta(pid) if pid != "ALL" else {"level": "proof"}
     seed = int(os.environ.get("VERIF_SEED", "0"))
     global KANI_DIR
